@@ -213,6 +213,11 @@ class C02(Property):
                 # programs outside the class (unit steps, unary plus, redundant parentheses ...): correspondence only
                 c = c1._minif_case(rng, 'quick')
                 yield {'kind': 'minif-any', 'src': c['src'], 'tie_only': True}
+        # programs with SELECT CASE (default block at any position, ranges, value lists, names): oracle only
+        ns = int(os.environ.get('LOKI_VERIF_C02_NS', '0')) or (30 if tier == 'quick' else 150)
+        for _ in range(ns):
+            c = c1._minif_case(rng, 'quick', canon=True, select=True)
+            yield {'kind': 'select-prog', 'src': c['src']}
         ne = int(os.environ.get('LOKI_VERIF_C02_NE', '0')) or (120 if tier == 'quick' else 600)
         for i in range(ne):
             yield self._expr_case(rng, i)
